@@ -5,7 +5,7 @@ CONSTANTS
   MaxLeaves = 4
   StartUnif = FALSE
   MaxDepth = 2
-  Fam = {"ReseedAt", "RerootAtNode", "RerootAtEdge", "RerootAtMidpoint", "ToOutgroupPosition", "Deroot", "CollapseBasalBifurcation", "SuppressUnifurcations", "CollapseEdge", "CollapseClade", "CollapseUnweightedEdges", "ResolvePolytomies", "PruneSubtree", "PruneTaxa", "RetainTaxa", "Ladderize", "Reorder", "NewChild", "InsertNewChild", "InsertChild", "RemoveChild", "EncodeBipartitions"}
+  Fam = {"ReseedAt", "RerootAtNode", "RerootAtEdge", "RerootAtMidpoint", "ToOutgroupPosition", "Deroot", "CollapseBasalBifurcation", "SuppressUnifurcations", "CollapseEdge", "CollapseClade", "CollapseUnweightedEdges", "ResolvePolytomies", "PruneSubtree", "PruneTaxa", "RetainTaxa", "Ladderize", "Reorder", "NewChild", "InsertNewChild", "InsertChild", "RemoveChild", "EncodeBipartitions", "RemoveNonChild", "AddChildSelf", "AddChildParent"}
   Rootings = {0, 1}
   LenPats = {"mixed"}
   ShapeMode = "unordered"
